@@ -480,7 +480,9 @@ func serverForwardResponses(
 			//	The server SHOULD send a "close" connection option in its final response on that connection.
 			//
 			// It's not a "MUST", so we check both.
-			if req.Close || resp.Close {
+			//
+			// An interim (1xx) response does not end the exchange. The final response is still to come.
+			if resp.StatusCode >= http.StatusOK && (req.Close || resp.Close) {
 				return errPayloadAfterFinalResponse
 			}
 
